@@ -48,9 +48,24 @@ FREE_ENTRY = ["virocon.utils.calculate_design_conditions", "virocon.utils.sort_p
 GETTERS = ["get_DNVGL_Hs_Tz", "get_DNVGL_Hs_U", "get_OMAE2020_Hs_Tz", "get_OMAE2020_V_Hs", "get_Windmeier_EW_Hs_S", "get_Nonzero_EW_Hs_S"]
 
 
+def _seeded(prog, rep):
+    # "seeded sampling ... repeating a deterministic evaluation returns identical results": every random number comes from
+    # np.random.default_rng(random_state) of the caller's own random_state, unchanged (the rows of C07.rng and C16.rng)
+    from vstat.report import Relabel
+    from . import c07, c16
+    sub = Relabel(rep, "C19.seed", lambda r, inst: r in ("C07.rng", "C07.noseed") or (r == "C16.rng" and "conditional_sample" in inst))
+    rep.part(c07.rng, prog, sub)
+    rep.part(c07.noseed, prog, sub)
+    rep.part(c16.rng, prog, sub)
+    rep.expect_min("C19.seed", 16)
+    rep.explanation += (" C19.seed: the rows of C07.rng / C16.rng - every draw comes from np.random.default_rng(random_state) with the caller's "
+                        "random_state passed on unchanged, so the same seed repeats the same numbers (seed 0 included).")
+
+
 def run(prog, rep):
     rep.explanation = EXPL
     rep.assumptions = ASSUME
+    rep.part(_seeded, prog, rep)
     eff = Effects(prog)
     rep.extra["C19.functions_summarised"] = len(eff.summ)
     rep.extra["C19.fixpoint_rounds"] = eff.rounds
